@@ -69,7 +69,9 @@ func prepare(e hx.Entry, b *simbmc.BMC, draw int) *hx.Call {
 
 type step struct {
 	Entry string
-	Fault string // "", duplicate, delayed, unsolicited, stray
+	Fault string // "", duplicate, delayed, unsolicited, stray, stray-lost, stray-expire
+	// StrayCC is the completion code carried by an unsolicited/stray datagram.
+	StrayCC byte
 }
 
 // runHistory executes the steps and returns a violation message.
@@ -93,16 +95,27 @@ func runHistory(suite ref.Suite, inSession bool, steps []step, seed uint64, draw
 		}
 	}
 	// a third command's reply used for unsolicited / stray datagrams
+	var strayCC byte
 	strayReply := func(b *simbmc.BMC, rx *simbmc.Rx) memnet.Out {
 		req := &ref.Msg{RsAddr: 0x20, NetFn: ref.NetFnApp, RqAddr: 0x81, RqSeq: 1, Cmd: 0x4E} // Get Channel Info: not in the catalogue
-		return b.Wrap(bs, b.ResponseFor(req, 0, []byte{1, 4, 0x81, 2, 0, 0, 0, 0, 0}).Bytes())
+		return b.Wrap(bs, b.ResponseFor(req, strayCC, []byte{1, 4, 0x81, 2, 0, 0, 0, 0, 0}).Bytes())
 	}
 	for i, st := range steps {
 		call := calls[st.Entry]
 		// a fresh command value of the same kind keeps earlier decoded data out
 		call = prepareSame(st.Entry, w.BMC, call)
 		first := true
+		strayCC = st.StrayCC
 		w.BMC.Intercept = func(b *simbmc.BMC, rx *simbmc.Rx) {
+			if (st.Fault == "stray-lost" || st.Fault == "stray-expire") && rx.Msg != nil {
+				// the stray is all this call ever receives: its own replies are lost
+				rx.Replies = nil
+				if first {
+					rx.Replies = []memnet.Out{strayReply(b, rx)}
+				}
+				first = false
+				return
+			}
 			if !first || len(rx.Replies) == 0 {
 				return
 			}
@@ -125,14 +138,18 @@ func runHistory(suite ref.Suite, inSession bool, steps []step, seed uint64, draw
 		}
 		delivered := len(w.Net.Delivered)
 		start := w.Net.Sends
-		ctx, cancel := w.Ctx(8)
+		budget := 8
+		if st.Fault == "stray-expire" {
+			budget = 1 // the context ends while the stray is being read
+		}
+		ctx, cancel := w.Ctx(budget)
 		code, err := cn.SendCommand(ctx, call.Cmd)
 		cancel()
 		sends := w.Net.Sends - start
 		if sends > 8 {
 			return fmt.Sprintf("step %d (%s): %d transmissions, beyond the attempt budget", i, call.Name, sends), foreign
 		}
-		if st.Fault == "stray" {
+		if st.Fault == "stray" || st.Fault == "stray-lost" || st.Fault == "stray-expire" {
 			headForeign = true
 		}
 		foreign = foreign || headForeign
@@ -177,7 +194,11 @@ func prepareSame(entry string, b *simbmc.BMC, first *hx.Call) *hx.Call {
 	return first.Fresh()
 }
 
-var faults = []string{"duplicate", "delayed", "unsolicited", "stray"}
+var faults = []string{"duplicate", "delayed", "unsolicited", "stray", "stray-lost", "stray-expire"}
+
+// strayCodes are the completion codes a stray datagram may carry: normal,
+// the temporary ones (node busy, timeout, out of space...), and permanent ones.
+var strayCodes = []byte{0x00, 0xC0, 0xC3, 0xC4, 0xC1, 0xC9, 0xD4, 0xFF, 0x81}
 
 func TestPairs(t *testing.T) {
 	cat := hx.Catalogue()
@@ -191,9 +212,10 @@ func TestPairs(t *testing.T) {
 				}
 				for _, f := range faults {
 					n++
-					steps := []step{{a.Name, f}, {b.Name, ""}, {a.Name, ""}, {b.Name, ""}}
-					if f == "unsolicited" || f == "stray" {
-						steps = []step{{a.Name, ""}, {b.Name, f}, {a.Name, ""}, {b.Name, ""}}
+					steps := []step{{a.Name, f, 0}, {b.Name, "", 0}, {a.Name, "", 0}, {b.Name, "", 0}}
+					cc := strayCodes[(n/len(faults))%len(strayCodes)]
+					if f == "unsolicited" || f == "stray" || f == "stray-lost" || f == "stray-expire" {
+						steps = []step{{a.Name, "", 0}, {b.Name, f, cc}, {a.Name, "", 0}, {b.Name, "", 0}}
 					}
 					msg, foreign := runHistory(suites[(n+int(ev.Seed))%9], inSession, steps, uint64(ev.Seed)*65537+uint64(n), n*13+int(ev.Seed))
 					ev.Eval()
@@ -302,6 +324,7 @@ func TestRandomHistories(t *testing.T) {
 			steps[i].Entry = rapid.SampledFrom(cat).Draw(t, "entry").Name
 			if rapid.IntRange(0, 2).Draw(t, "faulty") == 0 {
 				steps[i].Fault = rapid.SampledFrom(faults).Draw(t, "fault")
+				steps[i].StrayCC = rapid.SampledFrom(strayCodes).Draw(t, "strayCode")
 			}
 		}
 		msg, foreign := runHistory(rapid.SampledFrom(hx.Suites9()).Draw(t, "suite"), inSession, steps, rapid.Uint64().Draw(t, "seed"), rapid.IntRange(0, 1<<20).Draw(t, "draw"))
